@@ -14,7 +14,6 @@ package main
 import (
 	"context"
 	"fmt"
-	"io"
 	"os"
 	"path/filepath"
 	"strings"
@@ -104,9 +103,9 @@ func buildAlphabet() []opSpec {
 // execution therefore examines every intermediate state too (each block boundary of each execution).
 func layers(tier string) [][2]int {
 	if tier == "thorough" {
-		return [][2]int{{1, 22}, {2, 22}, {3, 22}, {4, 13}, {5, 6}, {6, 4}, {7, 3}}
+		return [][2]int{{1, 22}, {2, 22}, {3, 22}, {4, 10}, {5, 6}, {6, 4}, {7, 2}}
 	}
-	return [][2]int{{1, 22}, {2, 22}, {3, 13}, {4, 6}, {5, 4}, {6, 3}}
+	return [][2]int{{1, 22}, {2, 22}, {3, 13}, {4, 6}, {5, 3}, {6, 2}}
 }
 
 type params struct{ Ops []int }
@@ -302,10 +301,8 @@ type noClient struct {
 }
 
 var (
-	appender    aggsync.LogAppenderMap
-	scratchDir  string
-	templateDB  string
-	executionNo int
+	appender   aggsync.LogAppenderMap
+	templateDB []byte // a migrated, empty database made by the real constructor
 )
 
 func setup(string) {
@@ -315,30 +312,24 @@ func setup(string) {
 	if err != nil {
 		panic(fmt.Sprintf("c11: VerifBuildAppender: %v", err))
 	}
-	scratchDir = sk.ScratchDir()
-	// a migrated, empty database made by the real constructor; every execution starts from a copy
-	t := sk.Open(sk.L1Info, scratchDir)
+	dir := sk.ScratchDir()
+	defer os.RemoveAll(dir)
+	t := sk.Open(sk.L1Info, dir)
 	t.DB.Close()
-	templateDB = t.Path
+	if templateDB, err = os.ReadFile(t.Path); err != nil {
+		panic(err)
+	}
 }
 
-func freshNode() *sk.Node {
-	executionNo++
-	path := filepath.Join(scratchDir, fmt.Sprintf("x%d.sqlite", executionNo))
-	src, err := os.Open(templateDB)
-	if err != nil {
+// freshNode builds a fresh real store (real constructor, migrations included) on a copy of the
+// empty database, in its own scratch directory.
+func freshNode() (*sk.Node, string) {
+	dir := sk.ScratchDir()
+	path := filepath.Join(dir, "l1info.sqlite")
+	if err := os.WriteFile(path, templateDB, 0o644); err != nil {
 		panic(err)
 	}
-	dst, err := os.Create(path)
-	if err != nil {
-		panic(err)
-	}
-	if _, err := io.Copy(dst, src); err != nil {
-		panic(err)
-	}
-	src.Close()
-	dst.Close()
-	return sk.OpenAt(sk.L1Info, path)
+	return sk.OpenAt(sk.L1Info, path), dir
 }
 
 // flush runs the block's logs through the real appender and hands the block to the real store.
@@ -594,7 +585,8 @@ func sortedU64(m map[uint64]bool) []uint64 {
 
 func run(c *mc.Ctx, u mc.Unit) {
 	p := u.Params.(params)
-	n := freshNode()
+	n, dir := freshNode()
+	defer os.RemoveAll(dir)
 	defer n.Close()
 	w := newWorld()
 	var cur *blockBuilder
